@@ -345,7 +345,7 @@ EXTRACT_NATIVE = {"kind": "native", "crate": "clock-bound-d", "units": ["d_extra
 STATUS_PAIR = {"kind": "search", "crate": "clock-bound-d", "units": ["d_status_search"], "features": None, "test": "verif_search_status"}
 STATUS_NATIVE = {"kind": "native", "crate": "clock-bound-d", "units": ["d_status_search"], "features": None, "test": "verif_search_status",
                  "bound": "real SystemTime clock: 9 leap codes x 41 wire exponents x 4 coefficients of the update interval x 14 reference-time ages "
-                          "(1 day in the future ... 40 years old, incl. 8 intervals -/+ 3 s); ages within 2 s of a decision boundary are not asserted",
+                          "(1 day in the future ... 40 years old, incl. 8 intervals -/+ 30 s); ages within 20 s of a decision boundary are not asserted",
                  "obligations": ["C10.extract.no_panic", "C10.extract.sync_only_if_leap", "C10.extract.sync_only_if_not_future", "C10.extract.sync_only_if_fresh",
                                  "C10.extract.stale_is_free", "C10.extract.leap3_is_free", "C10.extract.bad_leap_unknown", "C10.extract.future_unknown",
                                  "C10.extract.fresh_is_sync"]}
